@@ -221,19 +221,16 @@ def _native_expect(stmts, loop):
     return res
 
 
-def check_future_untouched(env, loop, only_first=False):
-    """The Future(s) the coroutine blocked on: pending, no callbacks, and awaitable by a Task.
-    `only_first`: just the one it was suspended on when await_sync gave up (a Future awaited later,
-    during clean-up, is not "the object it was suspended on"; the property is silent about it)."""
-    items = list(env.F.items())
-    if only_first:
-        first = env.F.order[0] if env.F.order else None
-        items = [(k, f) for k, f in items if f is first]
-    for k, f in items:
+def check_future_untouched(env, loop, first_is_future=True):
+    """Every Future the coroutine was suspended on at some point of the aborted run (the one it blocked
+    on first, and any it waited for during its clean-up): pending, no callbacks, and awaitable by an
+    ordinary Task.  Returns None or (why, is_first)."""
+    first = env.F.order[0] if (env.F.order and first_is_future) else None
+    for k, f in list(env.F.items()):
         if f.done():
-            return f"future {k} was completed/cancelled by await_sync"
+            return f"future {k} was completed/cancelled by await_sync", f is first
         if f._callbacks:
-            return f"future {k} has callbacks left by await_sync"
+            return f"future {k} has callbacks left by await_sync", f is first
 
         async def later(f=f):
             return await f
@@ -242,9 +239,10 @@ def check_future_untouched(env, loop, only_first=False):
         try:
             r = loop.run_until_complete(asyncio.wait_for(t, 5))
         except BaseException as e:  # noqa: BLE001
-            return f"a later `await` of future {k} from an ordinary Task raised {type(e).__name__}: {e}"
+            return (f"a later `await` of future {k} from an ordinary Task raised {type(e).__name__}: {e}",
+                    f is first)
         if r != 100 + k:
-            return f"later await returned {r!r}"
+            return f"later await returned {r!r}", f is first
     return None
 
 
@@ -279,9 +277,10 @@ def judge_sync(stmts, loop, variant="await_sync"):
         tags.add("suspends-on-future" if on_future else "suspends-on-token")
         if "l" in a["log"] or "c" in a["log"]:
             tags.add("suspension-inside-try-or-after-effects")
-        if exp["abort"] == "yield" and (exp["caught"] or not exp["finished"]):
+        if exp["abort"] == "yield" and (exp["caught"] or not exp["finished"] or exp.get("close") == "x:RT.ignoredGE"):
             # abort caught by a handler and a new suspension, or clean-up that even ignores
-            # GeneratorExit: no claim
+            # GeneratorExit (in the coroutine itself or in a nested frame, which CPython then drops
+            # with "coroutine ignored GeneratorExit"): no claim
             tags.add("excluded:abort-swallowed-then-suspended")
         elif exp["abort"] == "yield":
             # clean-up (finally blocks) suspends again while the abort is still propagating:
@@ -299,11 +298,12 @@ def judge_sync(stmts, loop, variant="await_sync"):
             elif f"cv={a['cv']} ; reset={a['reset']}" != exp["cv"]:
                 bad = ("context-variable side effects visible to the caller differ from the native run", exp["cv"],
                        f"cv={a['cv']} ; reset={a['reset']}")
-            elif on_future:
-                why = check_future_untouched(env, loop, only_first=True)
+            elif env.F:
+                why = check_future_untouched(env, loop, first_is_future=on_future)
                 if why:
-                    bad = ("the awaited Future was not left untouched: " + why, "pending, no callbacks, awaitable",
-                           why)
+                    bad = (("the awaited Future was not left untouched: " if why[1] else
+                            "a Future awaited during clean-up was not left untouched: ") + why[0],
+                           "pending, no callbacks, awaitable", why[0])
         else:
             if a["out"] != "x:SyncError":
                 bad = ("suspending coroutine did not give SynchronousError", "x:SyncError", a["out"])
@@ -321,8 +321,8 @@ def judge_sync(stmts, loop, variant="await_sync"):
             elif on_future:
                 why = check_future_untouched(env, loop)
                 if why:
-                    bad = ("the awaited Future was not left untouched: " + why, "pending, no callbacks, awaitable",
-                           why)
+                    bad = ("the awaited Future was not left untouched: " + why[0], "pending, no callbacks, awaitable",
+                           why[0])
     return real, tags, bad
 
 
@@ -470,7 +470,9 @@ def gen_aiter(rng):
 
 def key_of(kind, bad):
     w = bad[0]
-    if "Future" in w:
+    if "during clean-up" in w:
+        slug = "cleanup-future-left-blocking"
+    elif "Future" in w:
         slug = "future-left-blocking" if "RuntimeError" in str(bad[2]) or "ordinary Task" in w else "future-touched"
     elif "chained" in w:
         slug = "cause"
